@@ -825,7 +825,8 @@ class Interp(Ops, Builtins, DynOps):
         cm = self.class_models.get(cls.name)
         if cm is not None and cm.repo_class is cls and getattr(cm, "alloc_smt", False):
             return self.instantiate_smt(cls, cm, args, kwargs, node)
-        self.ctx.mutating() if False else None
+        if self.is_exception_class(cls):
+            return VExc(cls.name, tuple(args))
         o = self.ctx.new_cell("obj", {}, cls)
         init = cls.find_method(self.index, "__init__")
         if init is not None:
@@ -858,6 +859,13 @@ class Interp(Ops, Builtins, DynOps):
             if any(b in ("Exception", "ValueError", "RuntimeError") for b in bases):
                 return VExc(cls.name, ())
         return o
+
+    def is_exception_class(self, cls):
+        for c in cls.mro(self.index):
+            for b in c.bases(self.index):
+                if isinstance(b, str) and b.split(".")[-1] in ("Exception", "ValueError", "RuntimeError", "TypeError", "KeyError", "BaseException"):
+                    return True
+        return False
 
     def enum_by_value(self, cls, v, node):
         mem = self.ctx.enum_members(cls)
